@@ -176,6 +176,15 @@ def run_one(tape: Any, cfg: Dict[str, Any], forbid: FrozenSet[str] = frozenset()
             c = Peer(w, 'c%d' % k, script, read_mode='chunky')
             c.connect_fn = h.connector()
             clients.append(c)
+        # two control requests after the probed path: a file above the compression threshold, then one below it
+        # (per-response state such as the header set must not leak from one response into the next)
+        controls = [('/sub/b.txt', b'B-inside' * 40), ('/a.txt', b'A-inside')]
+        for k, (cp, _) in enumerate(controls):
+            raw = ('GET %s HTTP/1.1\r\nHost: static.example\r\n\r\n' % cp).encode()
+            c = Peer(w, 'ctl%d' % k, [('sleep', 0.5 + 0.2 * k), ('connect',), ('send', raw, 'burst'), ('wait_eof',), ('close',)],
+                     read_mode='eager')
+            c.connect_fn = h.connector()
+            clients.append(c)
         if segmented:
             w.probe('segmented')
         w.settle(1.5, 120.0)
@@ -189,7 +198,26 @@ def run_one(tape: Any, cfg: Dict[str, Any], forbid: FrozenSet[str] = frozenset()
         # ---- oracle -----------------------------------------------------------------------------------------
         outcomes = []
         if not w.failures and not w.hung:
-            for k, c in enumerate(clients):
+            for k, c in enumerate(clients[2:]):
+                if fired:
+                    break
+                rx = bytes(c.rx)
+                p = h11_parse_responses(rx, True, [b'GET'])
+                resp = [r for r in p['responses'] if not r.get('interim')]
+                ok = not p['error'] and len(resp) == 1 and resp[0]['complete'] and resp[0]['status'] == 200
+                body = resp[0]['body'] if ok else b''
+                if ok and any(n.lower() == b'content-encoding' and v.strip().lower() == b'gzip' for n, v in resp[0]['headers']):
+                    try:
+                        body = gzip.decompress(body)
+                    except Exception:      # noqa
+                        ok = False
+                if not ok or body != controls[k][1]:
+                    w.fail('control_file_wrong', 'control:%s' % controls[k][0], 'after the probed request, GET %s returned %r (h11: %s): not the file, '
+                           'or its advertised content-encoding does not match the body' % (controls[k][0], rx[:160], p['error']))
+                    break
+            for k, c in enumerate(clients[:2]):
+                if w.failures:
+                    break
                 rx = bytes(c.rx)
                 tgt = path if k == 0 else path + '?' + query
                 closed = c.saw_eof or c.saw_reset
